@@ -2,6 +2,7 @@ package main
 
 // Extractors added for engine E4 (nsqlookupd).
 //
+//	stmts_opt: as stmts; [] when the function does not exist
 //	routes3 {"name","dir","func"} → def <name> : List (String × String × String)
 //	        (method, path, handler) for router.Handle / router.HandlerFunc / router.Handler
 //	        calls with literal method and path; handler = the function wrapped by
@@ -16,6 +17,19 @@ import (
 
 func init() {
 	register("routes3", kindRoutes3)
+	register("stmts_opt", kindStmtsOpt)
+}
+
+// stmts_opt: like `stmts`, but a function that does not exist yields the empty list (used for
+// code that only exists after a proposed fix; the tie then names both accepted shapes).
+func kindStmtsOpt(c *Ctx, it Item) (string, error) {
+	if _, _, err := c.FindFunc(it.Str("dir"), it.Str("func")); err != nil {
+		if strings.Contains(err.Error(), "not found") {
+			return fmt.Sprintf("def %s : List String := []\n", it.Str("name")), nil
+		}
+		return "", err
+	}
+	return kindStmts(c, it)
 }
 
 func kindRoutes3(c *Ctx, it Item) (string, error) {
